@@ -14,6 +14,22 @@ LOOP_INV = """
 """
 
 def apply(c):
+    # ---- LOC: the parser re-slices `data`; relate the sub-slices to the original buffer
+    c.ghost('dns/rdata/loc.rs', "impl<'a> WireFormat<'a> for LOC {", 'parse', "let data = &data[*position..*position + 16];",
+            "        let ghost d0 = data@;\n        let ghost p0 = *position as int;", where='before')
+    c.ghost('dns/rdata/loc.rs', "impl<'a> WireFormat<'a> for LOC {", 'parse', "Ok(LOC {", """
+        proof {
+            assert(data@ == d0.subrange(p0, p0 + 16));
+            assert(data@.subrange(4, 8) =~= d0.subrange(p0 + 4, p0 + 8));
+            assert(data@.subrange(8, 12) =~= d0.subrange(p0 + 8, p0 + 12));
+            assert(data@.subrange(12, 16) =~= d0.subrange(p0 + 12, p0 + 16));
+        }
+""", where='before')
+    # ---- SOA::write_common
+    c.contract('dns/rdata/soa.rs', "impl<'a> SOA<'a> {", 'write_common', """
+        ensures r is Ok ==> wrote(old(out), final(out), enc_be(self.serial as nat, 4) + enc_be(i32_bits(self.refresh), 4)
+            + enc_be(i32_bits(self.retry), 4) + enc_be(i32_bits(self.expire), 4) + enc_be(self.minimum as nat, 4)), // @C10:encoded-per-rfc
+""")
     # ---- NULL
     rel = 'dns/rdata/null.rs'
     c.append(rel, """verus!{
